@@ -15,19 +15,20 @@
       switch, unescaping of the captures in place, then the mechanisms, each of
       which asks the context for the view again).
 
-    Faithful to the code as it is.  [fixed_F1 = false] is the pinned
-    grpcv3.RequestContext (finding C13-F1), [fixed_F1 = true] the candidate
-    repair fixes/C13-F1.diff (cache the view as the HTTP context does);
-    [fixes] collects one flag per finding that has a (candidate) repair:
-    F1 (fix: b2286d8), F2, F3, F4, F6, F7 (fixes/C13-Fx.diff).
+    Faithful to the code as it is for the requests the theorems are about ([wf_lreqb]).  The record
+    [fixes] has one flag per repaired finding of the three-entry-point model: F1 (fix: b2286d8), F2
+    (7c3e9fc), F3 (a5ef279), F4 (ae6db4f), F6 (06faa19), F7 (19923cd), F9 (58408fc), F11 (9fe653a);
+    [false] = the code before that commit, [true] = since.  C13-F10 (f446e16) is a separate flag of
+    [view_tp].  /repo since f446e16 = all flags true.
 
     A *logical request* [lreq] is what the property quantifies over; [mk_http]
     / [mk_envoy] say what each entry point receives for it (net/http's parser;
-    Envoy's ext_authz CheckRequest as heimdall's own gRPC tests build it: path
-    and query in separate fields, lower-case header names, repeated headers
+    Envoy's ext_authz CheckRequest: lower-case header names, repeated headers
     joined with "," — cookies with "; " —, the peer in the gRPC metadata
-    x-forwarded-for, the body in the string field, the bytes field or both,
-    [l_pack]).
+    x-forwarded-for; per request the request target as documented for Envoy
+    (query inside [path]) or in separate fields as heimdall's own gRPC tests
+    build it ([l_qpath]), and the body in the string field, the bytes field or
+    both ([l_pack])).
 
     Oracles (data of a case or Section variables, never axioms): the body
     decoders (contenttype.NewDecoder + Decode, JSON/YAML/form) and rule lookup
@@ -226,13 +227,13 @@ Definition set_F11 (b : bool) (f : fixes) : fixes :=
   {| fx_F1 := fx_F1 f; fx_F2 := fx_F2 f; fx_F3 := fx_F3 f; fx_F4 := fx_F4 f; fx_F6 := fx_F6 f; fx_F7 := fx_F7 f;
      fx_F9 := fx_F9 f; fx_F11 := b |}.
 
-(** /repo today (b37641c): the six committed repairs are in — F1 b2286d8, F2 7c3e9fc, F3 a5ef279,
-    F4 ae6db4f, F6 06faa19, F7 19923cd, F9 58408fc, F11 9fe653a *)
+(** /repo since f446e16: the eight committed repairs of the [fixes] record are in — F1 b2286d8, F2 7c3e9fc,
+    F3 a5ef279, F4 ae6db4f, F6 06faa19, F7 19923cd, F9 58408fc, F11 9fe653a (F10 f446e16 is a separate
+    flag of [view_tp]) *)
 Definition repo_now : fixes := all_fixed.
 
 (** what grpcv3.NewRequestContext takes for path and query: as pinned the two attributes as they are
-    (finding C13-F11: with the documented Envoy shape the query string stays glued to the path); with the
-    candidate repair fixes/C13-F11.diff the request target is cut at the first "?" *)
+    (finding C13-F11: with the documented Envoy shape the query string stays glued to the path); with fix: 9fe653a (fixes/C13-F11.diff) the request target is cut at the first "?" *)
 Fixpoint has_qmark (s : string) : bool :=
   match s with
   | EmptyString => false
@@ -247,8 +248,7 @@ Definition norm_envoy (fixed_F11 : bool) (E : ereq) : ereq :=
   else E.
 
 (** grpcv3.NewRequestContext + Request().  [fixed_F4 = false]: the pinned code puts the path as received
-    (escaped) into URL.Path and leaves RawPath empty (finding C13-F4); [fixed_F4 = true]: the candidate
-    repair fixes/C13-F4.diff (Path = PathUnescape(path), RawPath = path, as extractURL does for HTTP). *)
+    (escaped) into URL.Path and leaves RawPath empty (finding C13-F4); [fixed_F4 = true]: fix: ae6db4f (Path = PathUnescape(path), RawPath = path, as extractURL does for HTTP). *)
 Definition build_envoy (fixed_F4 : bool) (E : ereq) : rview :=
   {| rv_method := e_method E; rv_scheme := e_scheme E; rv_host := e_host E;
      rv_path := if fixed_F4 then GoUrl.unescape_or_empty (e_path E) else e_path E;
@@ -408,7 +408,7 @@ Section Oracles.
     if fx_F6 fx && String.eqb key "Host" then host else assoc key m.
 
   (** grpcv3 reads the bytes field [raw_body] only; the string field [body] is stored and never used
-      (finding C13-F9; the candidate repair falls back to it when [raw_body] is empty) *)
+      (finding C13-F9; fix: 58408fc falls back to it when [raw_body] is empty) *)
   Definition envoy_raw_body (fx : fixes) (E : ereq) : string :=
     if fx_F9 fx && String.eqb (e_rawbody E) "" then e_body E else e_rawbody E.
 
